@@ -690,6 +690,20 @@ def check_rejected(ctx, case, path, bad_fvs, tags):
                     detail={"verdict": verdict})
 
 
+def pick_generated_by(rng):
+    return rng.choice(["c15-harness", "c15-harness"] + core.NASTY_TEXTS)
+
+
+def with_strict_warnings(strict):
+    """a warnings filter that turns every warning into an error (the code under test must not depend on
+    the caller's filter), or the harness's usual silence"""
+    import warnings
+    cm = warnings.catch_warnings()
+    cm.__enter__()
+    warnings.simplefilter("error" if strict else "ignore")
+    return cm
+
+
 def written_json_case(ctx, spec, route, with_exit=False, tags=(), path=None, creation_date=None,
                       fvs=JSON_FVS, t=None, direct_io=False, poke=True, reject=False):
     """write with the real to_json; a writer exception or text that is not JSON is a file the library
@@ -715,11 +729,11 @@ def written_json_case(ctx, spec, route, with_exit=False, tags=(), path=None, cre
         if direct_io:
             import io
             sio = io.StringIO()
-            t.to_json("c15-harness", direct_io=sio, creation_date=creation_date)
+            t.to_json(pick_generated_by(ctx.rng), direct_io=sio, creation_date=creation_date)
             text = sio.getvalue()
             ctx.count("json:direct_io")
         else:
-            text = t.to_json("c15-harness", creation_date=creation_date)
+            text = t.to_json(pick_generated_by(ctx.rng), creation_date=creation_date)
     except Exception as e:
         ctx.count("json:written->writer-raised")
         ctx.fail(case, "written_valid", tuple(tags) + ("json", "writer-raised:%s" % type(e).__name__))
@@ -747,6 +761,10 @@ def custom_md_formatter(grp, header, md, compression):
     grp.create_dataset(header, shape=(len(vals),), dtype=h5py.string_dtype(), data=vals)
 
 
+# ONE dict object handed to every call that uses the custom formatter (a writer must not keep or change it)
+REUSED_FORMAT_FS = {"grp": custom_md_formatter}
+
+
 def written_h5_case(ctx, spec, route, compress, base_path, with_exit=False, tags=(), creation_date=None,
                     fvs=H5_FVS, via="to_hdf5", t=None, format_fs=None, poke=True, reject=False):
     """write with the real to_hdf5 (or save_table) onto `base_path` and validate that very file"""
@@ -772,7 +790,7 @@ def written_h5_case(ctx, spec, route, compress, base_path, with_exit=False, tags
             from biom.parse import save_table
             if os.path.exists(base_path):
                 os.remove(base_path)
-            kw = {"generated_by": "c15-harness", "compress": compress}
+            kw = {"generated_by": pick_generated_by(ctx.rng), "compress": compress}
             if creation_date is not None:
                 kw["creation_date"] = creation_date
             if format_fs:
@@ -780,8 +798,12 @@ def written_h5_case(ctx, spec, route, compress, base_path, with_exit=False, tags
             save_table(t, base_path, **kw)
         else:
             with h5py.File(base_path, "w") as f:
-                t.to_hdf5(f, "c15-harness", compress=compress, creation_date=creation_date,
-                          format_fs={k: custom_md_formatter for k in format_fs} if format_fs else None)
+                ffs = REUSED_FORMAT_FS if format_fs == ["grp"] else \
+                    ({k: custom_md_formatter for k in format_fs} if format_fs else None)
+                t.to_hdf5(f, pick_generated_by(ctx.rng), compress=compress, creation_date=creation_date,
+                          format_fs=ffs)
+                if ffs is REUSED_FORMAT_FS and (list(ffs) != ["grp"] or ffs["grp"] is not custom_md_formatter):
+                    ctx.diverge(case, "to_hdf5 changed the caller's format_fs dict", tuple(tags) + ("hdf5",))
         if format_fs:
             ctx.count("hdf5:format_fs")
         tree, _ = observe_h5(base_path)
@@ -894,13 +916,288 @@ def inplace_and_alias_cases(ctx, rng, spec, shared, k):
     written_json_case(ctx, dspec2, "live", tags=("alias", "derived-after-source-changes",), path=shared, t=derived)
 
 
+# ----------------------------------------------------------------------------- less travelled inputs
+EDGE_VALUES = [16777217.0, 2.0 ** 53 - 1, 0.1, 1.0 / 3.0, 5e-324, 2.2250738585072014e-308, 1e-310,
+               123456789.12345679, -0.1, 1e-7, 33554433.0, 1.7976931348623157e308]
+
+
+def text_class_spec(rng, kind, classes):
+    """IDs / metadata / header texts from the less travelled classes"""
+    spec = gen_base_spec(rng, classes, max_n=5, max_m=5, min_n=2, min_m=2)
+    n, m = len(spec["obs"]), len(spec["samp"])
+    if kind == "twins":
+        # NFC and NFD spellings of one text are two DISTINCT IDs on one axis
+        tw = core.twin_ids(rng, 2)
+        spec["obs"] = (tw + ["O%d" % i for i in range(n)])[:max(n, 2)]
+        tw2 = core.twin_ids(rng, 1)
+        spec["samp"] = (tw2 + ["S%d" % i for i in range(m)])[:max(m, 2)]
+    elif kind == "nasty":
+        pool = list(core.NASTY_TEXTS)
+        rng.shuffle(pool)
+        spec["obs"] = pool[:n]
+        rng.shuffle(pool)
+        spec["samp"] = [x + "|s" for x in pool[:m]]
+    elif kind == "shared-names":
+        # the same texts name observations and samples
+        k = max(n, m)
+        names = (core.twin_ids(rng, 1) + ["x%d" % i for i in range(k)] + ["50%", "a b"])
+        rng.shuffle(names)
+        spec["obs"] = names[:n]
+        spec["samp"] = list(reversed(names))[:m] if rng.random() < 0.5 else names[:m]
+    n, m = len(spec["obs"]), len(spec["samp"])
+    spec["rows"] = core.gen_grid(rng, n, m, 0.6, classes)
+    nasty = core.NASTY_TEXTS
+    spec["omd"] = [{rng.choice(["k%", "\"q", "key"]): rng.choice(nasty), "n": i} for i in range(n)] \
+        if rng.random() < 0.6 else None
+    if spec["omd"] is not None:
+        keys = list(spec["omd"][0])
+        spec["omd"] = [{keys[0]: rng.choice(nasty), "n": i} for i in range(n)]
+    spec["smd"] = [{"note": rng.choice(nasty)} for _ in range(m)] if rng.random() < 0.6 else None
+    if rng.random() < 0.5:
+        spec["table_id"] = rng.choice(nasty)
+    assert len(set(spec["obs"])) == n and len(set(spec["samp"])) == m, (spec["obs"], spec["samp"])
+    return spec
+
+
+def edge_value_spec(rng):
+    spec = gen_base_spec(rng, ("count",), max_n=4, max_m=4, min_n=2, min_m=2, density=0.8)
+    for r in spec["rows"]:
+        for j in range(len(r)):
+            if r[j] != 0 and rng.random() < 0.7:
+                r[j] = rng.choice(EDGE_VALUES)
+    return spec
+
+
+def degenerate_spec(rng, n, m):
+    spec = {"obs": ["O%d" % i for i in range(n)], "samp": ["S%d" % i for i in range(m)],
+            "rows": [[float(rng.randint(1, 9)) for _ in range(m)] for _ in range(n)],
+            "omd": None, "smd": None, "type": spell_type(rng)}
+    return spec
+
+
+def table_with_group_md(spec):
+    from biom import Table
+    t = core.build(spec, "csr")
+    return Table(t.matrix_data, spec["obs"], spec["samp"], copy.deepcopy(spec.get("omd")),
+                 copy.deepcopy(spec.get("smd")), type=spec["type"],
+                 observation_group_metadata={"phylogeny": ("newick", "((a:0.1,b:0.2):0.3,c);")},
+                 sample_group_metadata={"rel": ("text", "50% of \"them\"")})
+
+
+def run_cli(cmd, args):
+    """invoke a sub-command object of biom.cli in-process; returns (exit code, exception name | None)"""
+    from click.testing import CliRunner
+    saved = os.dup(1)
+    try:
+        res = CliRunner().invoke(cmd, args)
+    finally:
+        os.dup2(saved, 1)
+        os.close(saved)
+    exc = res.exception
+    return res.exit_code, (type(exc).__name__ if exc is not None and not isinstance(exc, SystemExit) else None)
+
+
+def judge_output_file(ctx, case, out, spec_ids, spec_full, tags, fvs_json=(None,), fvs_h5=(None, "2.1.0")):
+    """a file some front end of the library wrote: it must be reported valid (written_valid), carry the
+    table's IDs, and - JSON with the table's own values - be the document the writer model denotes"""
+    import h5py
+    if not os.path.exists(out):
+        ctx.fail(case, "written_valid", tuple(tags) + ("no-output-file",))
+        return
+    if h5py.is_hdf5(out):
+        try:
+            tree, _ = observe_h5(out)
+        except Exception as e:
+            ctx.fail(case, "written_valid", tuple(tags) + ("hdf5", "unreadable:%s" % type(e).__name__))
+            return
+        n = len(spec_ids["obs"]) if spec_ids else 0
+        m = len(spec_ids["samp"]) if spec_ids else 0
+        h5_case(ctx, case, out, tree, [], n, m, is_base=True, written_from=spec_ids, tags=tags, fvs=fvs_h5,
+                in_place=True)
+    else:
+        text = open(out).read()
+        try:
+            doc = json.loads(text)
+            if not isinstance(doc, dict):
+                doc = None
+        except ValueError:
+            doc = None
+        if doc is None:
+            tags = tuple(tags) + ("unparsable-text",)
+        json_case(ctx, case, doc, [], doc=doc, text=text, is_base=True, written_from=spec_full, tags=tags,
+                  fvs=fvs_json, path=out)
+
+
+def cli_writer_cases(ctx, rng, shared, k):
+    """files written by the command-line front ends (convert, normalize-table, add-metadata, subset-table)
+    from a valid source file of a vocabulary-typed table"""
+    from biom.cli.table_converter import convert
+    from biom.cli.table_normalizer import normalize_table
+    from biom.cli.metadata_adder import add_metadata
+    from biom.cli.table_subsetter import subset_table
+    import h5py
+    exact = ("count", "smallcount", "dyadic", "neg")
+    if k % 3 == 0:
+        spec = hard_id_spec(rng, ("samp", "obs", "both")[k % 3], exact)
+    else:
+        spec = gen_base_spec(rng, exact, max_n=5, max_m=5, min_n=2, min_m=2)
+    if k % 2:
+        spec["omd"] = core.gen_md(rng, spec["obs"], "tax")
+        spec["smd"] = core.gen_md(rng, spec["samp"], "text")
+    src = os.path.join(TMP, F_CASE)
+    t = core.build(spec, rng.choice(core.ROUTES))
+    src_fmt = "json" if k % 2 == 0 else "hdf5"
+    if src_fmt == "json":
+        with open(src, "w") as f:
+            f.write(t.to_json("c15-harness"))
+    else:
+        with h5py.File(src, "w") as f:
+            t.to_hdf5(f, "c15-harness")
+    ids = {"obs": spec["obs"], "samp": spec["samp"]}
+    plain = all("\n" not in i and "\r" not in i and i == i.strip() and i for i in spec["obs"] + spec["samp"])
+    import re
+    jobs = []
+    # convert, both targets, with and without --table-type (canonical spelling of the table's own type)
+    canon = [v for v in VOCAB if v.lower() == spec["type"].lower()][0]
+    for target in ("--to-json", "--to-hdf5"):
+        for tt in ((), ("--table-type", canon)):
+            jobs.append(("convert%s%s" % (target, "+type" if tt else ""), convert,
+                         ["-i", src, "-o", shared, target] + list(tt), ids, spec))
+    jobs.append(("normalize-p", normalize_table, ["-i", src, "-o", shared, "-p", "-a", rng.choice(["sample", "observation"])],
+                 ids, None))
+    jobs.append(("normalize-r", normalize_table, ["-i", src, "-o", shared, "-r"], ids, None))
+    # the mapping-file grammar has its own quoting / comment rules (property C18): plain sample IDs only
+    map_safe = all(re.match(r"^[A-Za-z0-9_.\-]+$", i) for i in spec["samp"])
+    if plain and map_safe:
+        mp = os.path.join(TMP, "map_%d.txt" % PID)
+        with open(mp, "w") as f:
+            f.write("#SampleID\tdepth\tnote\n")
+            for i, sid in enumerate(spec["samp"]):
+                f.write("%s\t%d\tn%d\n" % (sid, i, i))
+        jobs.append(("add-metadata", add_metadata, ["-i", src, "-o", shared, "-m", mp, "--int-fields", "depth"], ids, None))
+        jobs.append(("add-metadata-json", add_metadata, ["-i", src, "-o", shared, "-m", mp, "--output-as-json"],
+                     ids, None))
+    import re
+    # the JSON text slicer behind `subset-table -j` is not string-aware (known findings F-C14-1..3 of C14):
+    # JSON sources only with IDs free of quotes, brackets, braces, commas and backslashes
+    slicer_safe = src_fmt == "hdf5" or all(re.match(r"^[A-Za-z0-9_. \-]+$", i) for i in spec["obs"] + spec["samp"])
+    if plain and slicer_safe:
+        ax = rng.choice(["sample", "observation"])
+        keep = spec["samp"] if ax == "sample" else spec["obs"]
+        keep = keep[:max(1, len(keep) - 1)]
+        ip = os.path.join(TMP, "ids_%d.txt" % PID)
+        with open(ip, "w") as f:
+            f.write("\n".join(keep) + "\n")
+        jobs.append(("subset-table", subset_table,
+                     [("-j" if src_fmt == "json" else "-i"), src, "-a", ax, "-s", ip, "-o", shared], None, None))
+    rng.shuffle(jobs)
+    for name, cmd, args, sids, sfull in jobs[:4] if ctx.quick() else jobs:
+        if os.path.exists(shared):
+            os.remove(shared)
+        case = {"fmt": "cli", "spec": spec, "src_fmt": src_fmt, "cli": name,
+                "args": [a if a not in (src, shared) else ("<src>" if a == src else "<out>") for a in args]}
+        ctx.case({"cli": name, "spec": core.spec_obs(spec), "src": src_fmt}, nontrivial=True)
+        ctx.count("cli-writer:%s:%s" % (name, src_fmt))
+        code, exc = run_cli(cmd, args)
+        tg = ("cli-writer:%s" % name, "source:%s" % src_fmt)
+        if code != 0:
+            ctx.count("cli-writer:%s->exit%d" % (name, code))
+            ctx.fail(case, "written_valid", tg + ("writer-raised:%s" % exc,))
+            continue
+        # normalised values / added metadata differ from the source table: only validity and IDs are judged
+        judge_output_file(ctx, case, shared, sids, sfull if name.startswith("convert--to-json") else None, tg)
+    for fn in ("map_%d.txt" % PID, "ids_%d.txt" % PID):
+        try:
+            os.remove(os.path.join(TMP, fn))
+        except OSError:
+            pass
+
+
+def less_travelled_cases(ctx, rng, shared):
+    quick = ctx.quick()
+    exact = ("count", "smallcount", "dyadic", "neg")
+    import warnings
+    # texts: normalisation twins, format-string / quoting / line-separator characters, names on both axes
+    for i in range(9 if quick else 180):
+        kind = ("twins", "nasty", "shared-names")[i % 3]
+        spec = text_class_spec(rng, kind, exact)
+        ctx.count("text-class:%s" % kind)
+        strict = (i % 4 == 1)
+        with warnings.catch_warnings():
+            warnings.simplefilter("error" if strict else "ignore")
+            written_json_case(ctx, spec, rng.choice(core.ROUTES), tags=("text:%s" % kind,) +
+                              (("warnings-as-errors",) if strict else ()), path=shared, direct_io=bool(i % 2))
+            written_h5_case(ctx, spec, rng.choice(core.ROUTES), bool(i % 2), shared,
+                            tags=("text:%s" % kind,) + (("warnings-as-errors",) if strict else ()),
+                            fvs=(None, "2.1.0"), via=("save_table" if i % 5 == 0 else "to_hdf5"))
+    # value ranges: > 2**24 integers, non-dyadic fractions, denormals, extremes
+    for i in range(4 if quick else 80):
+        spec = edge_value_spec(rng)
+        written_json_case(ctx, spec, rng.choice(core.ROUTES), tags=("edge-values",), path=shared, fvs=(None,))
+        written_h5_case(ctx, spec, rng.choice(core.ROUTES), True, shared, tags=("edge-values",), fvs=(None,))
+    # partially annotated axes (JSON; the HDF5 writer refuses inconsistent categories) and group metadata
+    for i in range(3 if quick else 60):
+        spec = gen_base_spec(rng, exact, max_n=5, max_m=5, min_n=3, min_m=3)
+        spec["omd"] = [None if k % 2 else {"grp": "g%d" % k} for k in range(len(spec["obs"]))]
+        spec["smd"] = [{"a": 1} if k == 0 else None for k in range(len(spec["samp"]))]
+        written_json_case(ctx, spec, rng.choice(core.ROUTES), tags=("partial-metadata",), path=shared)
+        spec2 = gen_base_spec(rng, exact, max_n=4, max_m=4, min_n=2, min_m=2)
+        spec2["omd"] = core.gen_md(rng, spec2["obs"], "tax") if i % 2 else None
+        spec2["smd"] = None
+        t = table_with_group_md(spec2)
+        written_h5_case(ctx, spec2, "live", bool(i % 2), shared, tags=("group-metadata",), t=t, fvs=(None, "2.1"))
+        written_json_case(ctx, spec2, "live", tags=("group-metadata",), path=shared, t=table_with_group_md(spec2),
+                          fvs=(None,))
+    # degenerate shapes, HDF5 writer (beyond the property's stated 1..N x 1..M domain; the unchanged tree
+    # holds the clause there): exactly one empty axis, the empty table, built directly and by filtering
+    shapes = [(0, 3), (2, 0), (0, 0), (0, 1), (1, 0)]
+    for i, (n, m) in enumerate(shapes if quick else shapes * 8):
+        spec = degenerate_spec(rng, n, m)
+        # sparse construction routes only: `Table(np.zeros((0, 1)), [], ['S0'])` (dense ndarray input with a
+        # single ID on the non-empty axis) yields a 0x0 matrix on the unchanged tree - a constructor matter
+        # outside this property, reported to the lead, not judged here
+        written_h5_case(ctx, spec, rng.choice(["csr", "csc"]), bool(i % 2), shared,
+                        tags=("degenerate:%dx%d" % (n, m),), fvs=(None, "2.1.0"),
+                        via=("save_table" if i % 3 == 2 else "to_hdf5"))
+        ctx.count("degenerate:%dx%d" % (n, m))
+    for i, ax in enumerate(("observation", "sample") if quick else ("observation", "sample") * 8):
+        full = gen_base_spec(rng, exact, max_n=4, max_m=4, min_n=2, min_m=2)
+        full["omd"] = core.gen_md(rng, full["obs"], "tax")
+        full["smd"] = core.gen_md(rng, full["samp"], "text")
+        t = core.build(full, rng.choice(core.ROUTES))
+        emptied = t.filter(lambda v, i_, md: False, axis=ax, inplace=False)
+        spec = copy.deepcopy(full)
+        if ax == "observation":
+            spec["obs"], spec["rows"], spec["omd"] = [], [], None
+        else:
+            spec["samp"], spec["rows"], spec["smd"] = [], [[] for _ in full["obs"]], None
+        written_h5_case(ctx, spec, "live", True, shared, tags=("degenerate:filtered-%s" % ax,), t=emptied,
+                        fvs=(None, "2.1"))
+        ctx.count("degenerate:filtered-%s" % ax)
+    # sizes above 512 IDs
+    for axis in (("sample",) if quick else ("sample", "observation")):
+        spec = core.wide_spec(rng, n_axis=rng.choice([520, 600]), other=2, axis=axis, classes=("smallcount",))
+        spec["type"] = spell_type(rng)
+        written_json_case(ctx, spec, "csr", tags=("wide:>512",), path=shared, fvs=(None,), poke=False)
+        written_h5_case(ctx, spec, "csc", True, shared, tags=("wide:>512",), fvs=(None,), poke=False)
+    # command-line front ends as writers
+    for k in range(6 if quick else 120):
+        cli_writer_cases(ctx, rng, shared, k)
+
+
 # ----------------------------------------------------------------------------- specs
 # ----------------------------------------------------------------------------- specs
 def gen_base_spec(rng, classes, max_n=4, max_m=4, min_n=1, min_m=1, density=None):
     spec = core.gen_spec(rng, max_n=max_n, max_m=max_m, min_n=min_n, min_m=min_m, classes=classes,
                          density=density)
-    spec["type"] = rng.choice(VOCAB)
+    spec["type"] = spell_type(rng)
     return spec
+
+
+def spell_type(rng):
+    """a vocabulary type in some case spelling (the format treats the type case-insensitively)"""
+    t = rng.choice(VOCAB)
+    return rng.choice([t, t, t.lower(), t.upper(), t.title(), t.swapcase()])
 
 
 DUP_ROW_DOC = {
@@ -1040,7 +1337,7 @@ def _run(ctx):
     # size thresholds: >= 64 IDs on one axis; one metadata text >= 64 KiB; a very long ID
     for i, axis in enumerate(("sample", "observation") if quick else ("sample", "observation") * 6):
         spec = core.wide_spec(rng, n_axis=rng.choice([65, 70, 100, 130]), axis=axis, classes=exact, md=bool(i % 2))
-        spec["type"] = rng.choice(VOCAB)
+        spec["type"] = spell_type(rng)
         written_json_case(ctx, spec, rng.choice(core.ROUTES), tags=("wide:%s" % axis,), path=shared)
         written_h5_case(ctx, spec, rng.choice(core.ROUTES), bool(i % 2), shared, tags=("wide:%s" % axis,),
                         fvs=(None, "2.1.0"))
@@ -1069,6 +1366,7 @@ def _run(ctx):
             spec["omd"] = core.gen_md(rng, spec["obs"], "text")
             spec["smd"] = core.gen_md(rng, spec["samp"], "num")
         inplace_and_alias_cases(ctx, rng, spec, shared, k)
+    less_travelled_cases(ctx, rng, shared)
     # IDs that need escaping, on each axis independently and on both (same shared path)
     n_hard = 36 if quick else 600
     for i in range(n_hard):
@@ -1197,6 +1495,10 @@ def replay(ctx, rec):
         # the table had a history (in-place updates / derived tables); its current content is in the spec
         case = dict(case, route="dense")
     try:
+        if case["fmt"] == "cli":
+            ctx.notes.append("front-end case: re-run `biom %s %s` on a %s file written from case['spec']" % (
+                case["cli"], " ".join(case["args"]), case["src_fmt"]))
+            raise RuntimeError("front-end cases are replayed by hand (see note)")
         if case["fmt"] == "json":
             if "doc" in case:
                 json_case(ctx, case, case["doc"], case["muts"], tags=("replay",), fvs=fvs)
